@@ -38,6 +38,8 @@ MANIFEST = {
 
 HERE = os.path.abspath(__file__)
 MP = refmp.build(b'BND', [(refmp.cd('t'), b'v%d'), (refmp.cd('f', 'n.bin', 'text/plain'), b'data%d')], epilogue=b'\r\n')[0]
+MP_RICH = refmp.build(b'BND', [(refmp.cd('t'), b'v%d'), (refmp.cd('f', 'n.png', 'image/png') + b'\r\nX-Owner: owner-%d', b'data%d')], epilogue=b'\r\n')[0]
+MP = refmp.build(b'BND', [(refmp.cd('t'), b'v%d'), (refmp.cd('f', 'n.bin'), b'data%d')], epilogue=b'\r\n')[0]
 KINDS = ['getq', 'form', 'upload', 'raise', 'crash', '404', 'gen', 'wild', 'chunked', 'badform', 'badchunkj', 'badchunkh', 'notmod', 'rex', 'session', 'dm']
 SESSION_SECRET = 'k8'
 
@@ -82,10 +84,12 @@ def make_app(om, obs):
     def upload():
         ident = app.request.headers.get('X-Id')
         snap('p1', ident)
-        fl = app.request.files['f'].file.read()
+        up = app.request.files['f']
+        fl = up.file.read()
         tx = app.request.forms['t']
         snap('p2', ident)
-        return b'upload:' + fl + b':' + tx.encode()
+        hdrs = sorted((k, str(getattr(v, 'value', v))) for k, v in up.headers.items())
+        return b'upload:' + fl + b':' + tx.encode() + (':%s:%r' % (up.content_type, hdrs)).encode()
 
     def raiser():
         ident = app.request.headers.get('X-Id')
@@ -164,6 +168,10 @@ def make_app(om, obs):
             app.response.set_cookie('tenant', label)
             return f'tenant {label} for {ident}'
         return h
+    def stamp():
+        # a before_request hook with a visible effect: every request of the application gets its own stamp
+        app.response.headers['X-Stamped-For'] = app.request.headers.get('X-Id', '?')
+    app.add_hook('before_request', stamp)
     app.route('/ta/dm', 'GET', tenant('A'))
     app.route('/tb/dm', 'GET', tenant('B'))
     app.route('/notmod', 'GET', notmod)
@@ -187,7 +195,8 @@ def environ_for(kind, ident):
     if kind == 'form':
         return wsgi.environ('POST', '/form', body=('a=%s&b=2' % ident).encode(), ctype='application/x-www-form-urlencoded', headers=h)
     if kind == 'upload':
-        return wsgi.environ('POST', '/upload', body=MP.replace(b'%d', ident.encode()), ctype='multipart/form-data; boundary=BND', headers=h)
+        # request 1 uploads an image with an extra part header, the other requests a bare file part
+        return wsgi.environ('POST', '/upload', body=(MP_RICH if ident == '1' else MP).replace(b'%d', ident.encode()), ctype='multipart/form-data; boundary=BND', headers=h)
     if kind == 'raise':
         return wsgi.environ('GET', '/raise', headers=h)
     if kind == 'crash':
@@ -249,7 +258,7 @@ def serve(app, kind, ident):
 _solo = {}
 
 
-FRESH_KINDS = {'badform', 'badchunkj', 'badchunkh', 'session'}     # requests answered through the shared error objects of errors_map:
+FRESH_KINDS = {'badform', 'badchunkj', 'badchunkh', 'session', 'upload'}     # requests answered through the shared error objects of errors_map:
 #                                                          every execution (and the stand-alone run) starts from a fresh import
 
 
@@ -304,7 +313,7 @@ def judge(om, kinds, x):
 
 QUICK_PAIRS = [('getq', k) for k in KINDS[:8]] + [('raise', 'crash'), ('form', 'upload'), ('wild', 'wild'), ('404', 'crash'), ('gen', 'gen'),
                ('chunked', 'chunked'), ('badform', 'badform'), ('badchunkj', 'badchunkh'), ('getq', 'notmod'), ('notmod', 'crash'),
-               ('rex', 'rex'), ('session', 'session')]
+               ('rex', 'rex'), ('session', 'session'), ('upload', 'upload')]
 
 
 def pairs():
